@@ -2,3 +2,4 @@
 import PlasVerif.Properties.C01
 import PlasVerif.Properties.C04
 import PlasVerif.Properties.C19
+import PlasVerif.Properties.C18
